@@ -3,7 +3,10 @@
   Only property theorems and their non-vacuity examples live here.
 -/
 import Bita.Proofs.CloneSound
+import Bita.Proofs.CloneNoJunk
 import Bita.Proofs.TryInit
+import Bita.Proofs.ReaderEnv
+import Bita.Proofs.StepOrder
 
 namespace Bita.Props.C04
 open Bita Bita.Spec
@@ -12,8 +15,9 @@ open Bita Bita.Spec
 the chunk reader may return *arbitrary* bytes for every chunk request - any bit flips,
 truncations, swapped payloads, trailing garbage, error pages of the right length, short bodies
 (an error item) -, the codec may do anything, seeds and prior output are arbitrary.  Then clone
-either fails or produces exactly the source, or a collision with a genuine source chunk under
-the truncated strong hash is exhibited. -/
+either fails or produces exactly the source.  The only escape is a collision of the truncated
+strong hash with a genuine source chunk; colliding junk chunks in the prior output are
+irrelevant (`Proofs.reorderOps_keep`). -/
 theorem clone_sound_against_any_reader (H : Bytes → Bytes) (hH : ∀ x, (H x).length = 64)
     (decomp : Nat → Bytes → Nat → Option Bytes) (features : List Nat)
     (readAt : Nat → Nat → Option Bytes) (readChunks : List (Nat × Nat) → List (Option Bytes))
@@ -24,9 +28,23 @@ theorem clone_sound_against_any_reader (H : Bytes → Bytes) (hH : ∀ x, (H x).
     let r := Clone.run H decomp features readAt readChunks opts prior seeds
     r.result = .ok →
       (setLen r.output src.length = src ∧ (opts.blockDev = false → r.output = src)) ∨
-      Collision H a.hashLength cks ∨
-      (opts.seedOutput = true ∧ SelfCollision H a.hashLength a.config prior) :=
-  Proofs.clone_sound H hH decomp features readAt readChunks opts prior seeds a src cks hinit hd hitems
+      Collision H a.hashLength cks :=
+  Proofs.clone_sound_nojunk H hH decomp features readAt readChunks opts prior seeds a src cks hinit hd hitems
+
+/-- **T1 over HTTP.**  The same with the reader instantiated by the model of `HttpReader`: *any*
+server behaviour (any bytes of any length for any range), any transport failures, any retry
+budget.  A clone that reports success has produced the source, or a collision of the truncated
+strong hash with a genuine source chunk is exhibited. -/
+theorem clone_sound_against_any_server (H : Bytes → Bytes) (hH : ∀ x, (H x).length = 64)
+    (decomp : Nat → Bytes → Nat → Option Bytes) (features : List Nat) (e : HttpEnv)
+    (opts : CloneOpts) (prior : Bytes) (seeds : List Bytes)
+    (a : Archive) (src : Bytes) (cks : List Bytes)
+    (hinit : tryInit H features e.readAt = .ok a) (hd : Describes H a src cks) :
+    let r := Clone.run H decomp features e.readAt e.readChunks opts prior seeds
+    r.result = .ok →
+      (setLen r.output src.length = src ∧ (opts.blockDev = false → r.output = src)) ∨
+      Collision H a.hashLength cks :=
+  Proofs.clone_http_sound H hH decomp features e opts prior seeds a src cks hinit hd
 
 /-- **C04 T2 (header).**  Whatever bytes are presented, if they open, the 64 bytes found where
 their own size field says the checksum lies are the strong hash of everything before them. -/
@@ -110,5 +128,13 @@ example :
     (Clone.run toyH (fun _ b _ => some b) [] (honestReadAt archive) bad {} [] []).result ≠ .ok ∧
     (Clone.run toyH (fun _ b _ => some b) [] (honestReadAt archive) (honestReadChunks archive) {} [] []).result = .ok := by
   decide +kernel
+
+/-- The step order of `clone_archive` that `Clone.run` transcribes (scan the output and reorder in
+place *before* any seed is used, fetch last, flush before resize), read from the source on every
+run: a reordering of the steps in the code breaks this theorem. -/
+theorem clone_steps_as_modelled :
+    Gen.cloneStepOrder = ["try_init", "banner", "pin", "open_output", "device_check", "scan_output", "reorder",
+                          "seed_stdin", "seed_files", "fetch", "flush", "resize", "verify_output"] :=
+  Proofs.clone_step_order_fact
 
 end Bita.Props.C04
